@@ -141,6 +141,22 @@ func sameErr(a, b error) bool {
 	return a.Error() == b.Error()
 }
 
+// c05Others decodes a few records of other events: hex-encoded arguments, a unix socket path, a process title.
+func c05Others() {
+	for _, o := range []struct {
+		typ auparse.AuditMessageType
+		raw string
+	}{
+		{auparse.AUDIT_EXECVE, `audit(1700000002.789:4713): argc=3 a0="o0" a1=6F74686572206F74686572206F74686572206F74686572206F74686572206F74686572 a2=6F32206F32`},
+		{auparse.AUDIT_SOCKADDR, `audit(1700000003.000:4714): saddr=01002F72756E2F6F746865722F6F746865722F6F746865722E736F636B657400`},
+		{auparse.AUDIT_PROCTITLE, `audit(1700000004.000:4715): proctitle=6F74686572007469746C65006F74686572007469746C65`},
+	} {
+		if m, err := auparse.Parse(o.typ, o.raw); err == nil {
+			_, _ = m.Data()
+		}
+	}
+}
+
 // totalityOracle is shared by the rapid property and the native fuzz targets.
 func totalityOracle(c C05Case) (accepted bool, typ uint16, err error) {
 	var m *auparse.AuditMessage
@@ -167,9 +183,19 @@ func totalityOracle(c C05Case) (accepted bool, typ uint16, err error) {
 	t1, te1 := m.Tags()
 	t1copy := append([]string(nil), t1...)
 	ms1 := m.ToMapStr()
+	// what the first calls returned, byte for byte (a fresh string: nothing in it shares memory with the results),
+	// then other records are decoded — their values go through the same decoders — and the calls are repeated
+	snap1 := fmt.Sprintf("%q | %q | %q", d1, t1, fmt.Sprint(ms1))
+	c05Others()
+	if snap := fmt.Sprintf("%q | %q | %q", d1, t1, fmt.Sprint(ms1)); snap != snap1 {
+		return true, uint16(m.RecordType), fmt.Errorf("the results the first calls returned changed while other records were decoded:\n  were %s\n  are  %s", snap1, snap)
+	}
 	d2, e2 := m.Data()
 	t2, te2 := m.Tags()
 	ms2 := m.ToMapStr()
+	if snap := fmt.Sprintf("%q | %q | %q", d2, t2, fmt.Sprint(ms2)); snap != snap1 {
+		return true, uint16(m.RecordType), fmt.Errorf("Data/Tags/ToMapStr differ between calls (other records were decoded in between):\n  first  %s\n  second %s", snap1, snap)
+	}
 	if !sameErr(e1, e2) || !sameErr(te1, te2) || !sameErr(e1, te1) {
 		return true, uint16(m.RecordType), fmt.Errorf("errors differ between calls: Data %v / %v, Tags %v / %v", e1, e2, te1, te2)
 	}
